@@ -275,7 +275,7 @@ PROPS["C06"] = {
     "quick_budget_s": 60,
     "thorough_budget_s": 900,
     "stuck_s": 300,
-    "floors": {"any": {"histories": 1000, "invariant-checks": 20000, "exhaustive-histories": 100000, "op:remove": 2000,
+    "floors": {"any": {"encode-probe:wiring-compared": 50000, "histories": 1000, "invariant-checks": 20000, "exhaustive-histories": 100000, "op:remove": 2000,
                        "op:unregister": 500, "op:set:ok": 300, "op:unset:ok": 50, "op:export:ok": 1000, "op:unexport": 500,
                        "op:define:ok": 1000, "op:alias:ok": 300, "encode-probe:ok": 2000}},
     "rule": "Random part: libraries of 2-3 WIT-derived components (1-3 interfaces, no resources, no versions) and a universe of 8 "
@@ -289,7 +289,7 @@ PROPS["C06"] = {
             "(register 2 packages, instantiate both) EVERY sequence of 5 (quick) / 6 (thorough) applicable operations over a tiny "
             "universe (2 export names, 3 definable types, all live nodes) with the same checks. Non-trivial: a history with a "
             "removal/unregister after an edge was created; distinct by hash of the operation-kind sequence.",
-    "exhaustive_note": "exhaustive: true refers to the depth-bounded enumeration over the tiny universe only (evidence.notes.exhaustive_depth); the random long histories are sampled",
+    "exhaustive_note": "exhaustive: true refers to the depth-bounded enumeration over the tiny universe only (evidence.notes.exhaustive_depth); the random long histories are sampled Histories also alias exports of aliased instances (aliases of aliases); after every history that encodes to a valid component the output is compared with the surviving graph by C02's translation check (instantiations, exports, embedded components, name section).",
     "assumptions": ["type-compatibility verdicts of set_instantiation_argument are taken from the implementation (C07 decides them); the model decides everything else",
                     "'unexport' means the node is no longer exported under any name; 'remove' frees every name the node held",
                     "the encode probe stays out of states where a defined type mentions the record t0 while t0 is undefined (the API cannot express that requirement)"],
